@@ -152,8 +152,13 @@ class Binding(object):
         c = copy.deepcopy(m)
         st = np.random.get_state()
         try:
+            # two consecutive calls under a fresh seed (the stream, not just its first batch), and the first batch once more after re-seeding
             c.set_random_state(np.random.RandomState(987))
-            return _exc(self.sample, c, n)
+            first = _exc(self.sample, c, n)
+            second = _exc(self.sample, c, n - 1)
+            c.set_random_state(np.random.RandomState(987))
+            again = _exc(self.sample, c, n)
+            return (first, second, again)
         finally:
             np.random.set_state(st)
 
@@ -165,7 +170,11 @@ class Binding(object):
             q = tuple((meth, P.canon(_exc(self.query, m, meth))) for meth in self.obs_methods())
         finally:
             np.random.set_state(st)
-        return ('obs', self.family(m), self.cheap(m), q, P.canon(self.probe_sample(m)))
+        ps = P.canon(self.probe_sample(m))
+        if getattr(self, 'exact_probe', False):
+            # round trips promise identical, not merely close, sample streams: the digest is part of the observation
+            return ('obs', self.family(m), self.cheap(m), q, ps, P.digest(ps))
+        return ('obs', self.family(m), self.cheap(m), q, ps)
 
     def obs_methods(self):
         return self.methods
